@@ -938,74 +938,74 @@ package ircserver
 //@   requires legacy-created: forall x robust.Id :: x in i.sessions ==> i.sessions[x].Created > 0 && !i.sessions[x].LastNonPing.IsZero()
 // user modes are letters: nothing below 'A' is ever set (cmdMode only sets parsed mode letters)
 //@   requires modes-letters: forall x robust.Id, m int :: x in i.sessions && 0 <= m && m < 65 ==> !i.sessions[x].modes[m]
-//@   assert@call append#3 : built: callarg1[0] != nil && callarg1[0].Id != nil && callarg1[0].IrcPrefix != nil && snapId(callarg1[0]) == id && session == i.sessions[id] && sessRepr(callarg1[0], session) && modesOK(callarg1[0]) && modesRepr(callarg1[0], session)
-//@   assert@call append#3 : kept: forall k int :: 0 <= k && k < len(sessions) ==> sessEntryOK(sessions[k], i) && snapId(sessions[k]) != id
+//@   assert@call append#3 : sess-built: callarg1[0] != nil && callarg1[0].Id != nil && callarg1[0].IrcPrefix != nil && snapId(callarg1[0]) == id && session == i.sessions[id] && sessRepr(callarg1[0], session) && modesOK(callarg1[0]) && modesRepr(callarg1[0], session)
+//@   assert@call append#3 : sess-kept: forall k int :: 0 <= k && k < len(sessions) ==> sessEntryOK(sessions[k], i) && snapId(sessions[k]) != id
 //@   loop range i.sessions
-//@     invariant forall k int :: 0 <= k && k < len(sessions) ==> sessEntryOK(sessions[k], i) && seen(snapId(sessions[k]))
-//@     invariant forall x robust.Id :: seen(x) ==> (exists k int :: 0 <= k && k < len(sessions) && snapId(sessions[k]) == x)
-//@     invariant forall a int, b int {sessions[a], sessions[b]} :: 0 <= a && a < b && b < len(sessions) ==> snapId(sessions[a]) != snapId(sessions[b])
+//@     invariant sess-l0: forall k int :: 0 <= k && k < len(sessions) ==> sessEntryOK(sessions[k], i) && seen(snapId(sessions[k]))
+//@     invariant sess-l1: forall x robust.Id :: seen(x) ==> (exists k int :: 0 <= k && k < len(sessions) && snapId(sessions[k]) == x)
+//@     invariant sess-l2: forall a int, b int {sessions[a], sessions[b]} :: 0 <= a && a < b && b < len(sessions) ==> snapId(sessions[a]) != snapId(sessions[b])
 //@   loop range session.Channels
-//@     invariant id in i.sessions && session == i.sessions[id] && session != nil
-//@     invariant forall k int :: 0 <= k && k < len(sessions) ==> sessEntryOK(sessions[k], i) && snapId(sessions[k]) != id && seen(snapId(sessions[k]), "range i.sessions")
-//@     invariant forall x robust.Id :: seen(x, "range i.sessions") && x != id ==> (exists k int :: 0 <= k && k < len(sessions) && snapId(sessions[k]) == x)
-//@     invariant forall a int, b int {sessions[a], sessions[b]} :: 0 <= a && a < b && b < len(sessions) ==> snapId(sessions[a]) != snapId(sessions[b])
+//@     invariant sess-l3: id in i.sessions && session == i.sessions[id] && session != nil
+//@     invariant sess-l4: forall k int :: 0 <= k && k < len(sessions) ==> sessEntryOK(sessions[k], i) && snapId(sessions[k]) != id && seen(snapId(sessions[k]), "range i.sessions")
+//@     invariant sess-l5: forall x robust.Id :: seen(x, "range i.sessions") && x != id ==> (exists k int :: 0 <= k && k < len(sessions) && snapId(sessions[k]) == x)
+//@     invariant sess-l6: forall a int, b int {sessions[a], sessions[b]} :: 0 <= a && a < b && b < len(sessions) ==> snapId(sessions[a]) != snapId(sessions[b])
 //@   loop range session.invitedTo
-//@     invariant id in i.sessions && session == i.sessions[id] && session != nil
-//@     invariant forall k int :: 0 <= k && k < len(sessions) ==> sessEntryOK(sessions[k], i) && snapId(sessions[k]) != id && seen(snapId(sessions[k]), "range i.sessions")
-//@     invariant forall x robust.Id :: seen(x, "range i.sessions") && x != id ==> (exists k int :: 0 <= k && k < len(sessions) && snapId(sessions[k]) == x)
-//@     invariant forall a int, b int {sessions[a], sessions[b]} :: 0 <= a && a < b && b < len(sessions) ==> snapId(sessions[a]) != snapId(sessions[b])
+//@     invariant sess-l7: id in i.sessions && session == i.sessions[id] && session != nil
+//@     invariant sess-l8: forall k int :: 0 <= k && k < len(sessions) ==> sessEntryOK(sessions[k], i) && snapId(sessions[k]) != id && seen(snapId(sessions[k]), "range i.sessions")
+//@     invariant sess-l9: forall x robust.Id :: seen(x, "range i.sessions") && x != id ==> (exists k int :: 0 <= k && k < len(sessions) && snapId(sessions[k]) == x)
+//@     invariant sess-l10: forall a int, b int {sessions[a], sessions[b]} :: 0 <= a && a < b && b < len(sessions) ==> snapId(sessions[a]) != snapId(sessions[b])
 //@   loop for mode < 'z'
-//@     invariant forall j int :: 0 <= j && j < len(modes) ==> len(modes[j]) > 0 && modes[j][0] < 122
-//@     invariant 65 <= mode && mode <= 122 && forall m int :: 0 <= m && m < 122 ==> ((exists j int :: 0 <= j && j < len(modes) && modes[j][0] == m) <==> (65 <= m && m < mode && session.modes[m]))
-//@     invariant id in i.sessions && session == i.sessions[id] && session != nil
-//@     invariant forall k int :: 0 <= k && k < len(sessions) ==> sessEntryOK(sessions[k], i) && snapId(sessions[k]) != id && seen(snapId(sessions[k]), "range i.sessions")
-//@     invariant forall x robust.Id :: seen(x, "range i.sessions") && x != id ==> (exists k int :: 0 <= k && k < len(sessions) && snapId(sessions[k]) == x)
-//@     invariant forall a int, b int {sessions[a], sessions[b]} :: 0 <= a && a < b && b < len(sessions) ==> snapId(sessions[a]) != snapId(sessions[b])
+//@     invariant sess-l11: forall j int :: 0 <= j && j < len(modes) ==> len(modes[j]) > 0 && modes[j][0] < 122
+//@     invariant sess-l12: 65 <= mode && mode <= 122 && forall m int :: 0 <= m && m < 122 ==> ((exists j int :: 0 <= j && j < len(modes) && modes[j][0] == m) <==> (65 <= m && m < mode && session.modes[m]))
+//@     invariant sess-l13: id in i.sessions && session == i.sessions[id] && session != nil
+//@     invariant sess-l14: forall k int :: 0 <= k && k < len(sessions) ==> sessEntryOK(sessions[k], i) && snapId(sessions[k]) != id && seen(snapId(sessions[k]), "range i.sessions")
+//@     invariant sess-l15: forall x robust.Id :: seen(x, "range i.sessions") && x != id ==> (exists k int :: 0 <= k && k < len(sessions) && snapId(sessions[k]) == x)
+//@     invariant sess-l16: forall a int, b int {sessions[a], sessions[b]} :: 0 <= a && a < b && b < len(sessions) ==> snapId(sessions[a]) != snapId(sessions[b])
 // the loops after the session loop leave the session list alone
 //@   loop range i.channels
-//@     invariant forall k int :: 0 <= k && k < len(sessions) ==> sessEntryOK(sessions[k], i)
-//@     invariant forall x robust.Id :: x in i.sessions ==> (exists k int :: 0 <= k && k < len(sessions) && snapId(sessions[k]) == x)
-//@     invariant forall a int, b int {sessions[a], sessions[b]} :: 0 <= a && a < b && b < len(sessions) ==> snapId(sessions[a]) != snapId(sessions[b])
+//@     invariant sess-l17: forall k int :: 0 <= k && k < len(sessions) ==> sessEntryOK(sessions[k], i)
+//@     invariant sess-l18: forall x robust.Id :: x in i.sessions ==> (exists k int :: 0 <= k && k < len(sessions) && snapId(sessions[k]) == x)
+//@     invariant sess-l19: forall a int, b int {sessions[a], sessions[b]} :: 0 <= a && a < b && b < len(sessions) ==> snapId(sessions[a]) != snapId(sessions[b])
 //@   loop range channel.nicks
-//@     invariant forall k int :: 0 <= k && k < len(sessions) ==> sessEntryOK(sessions[k], i)
-//@     invariant forall x robust.Id :: x in i.sessions ==> (exists k int :: 0 <= k && k < len(sessions) && snapId(sessions[k]) == x)
-//@     invariant forall a int, b int {sessions[a], sessions[b]} :: 0 <= a && a < b && b < len(sessions) ==> snapId(sessions[a]) != snapId(sessions[b])
+//@     invariant sess-l20: forall k int :: 0 <= k && k < len(sessions) ==> sessEntryOK(sessions[k], i)
+//@     invariant sess-l21: forall x robust.Id :: x in i.sessions ==> (exists k int :: 0 <= k && k < len(sessions) && snapId(sessions[k]) == x)
+//@     invariant sess-l22: forall a int, b int {sessions[a], sessions[b]} :: 0 <= a && a < b && b < len(sessions) ==> snapId(sessions[a]) != snapId(sessions[b])
 //@   loop range channelNickModes
-//@     invariant forall k int :: 0 <= k && k < len(sessions) ==> sessEntryOK(sessions[k], i)
-//@     invariant forall x robust.Id :: x in i.sessions ==> (exists k int :: 0 <= k && k < len(sessions) && snapId(sessions[k]) == x)
-//@     invariant forall a int, b int {sessions[a], sessions[b]} :: 0 <= a && a < b && b < len(sessions) ==> snapId(sessions[a]) != snapId(sessions[b])
+//@     invariant sess-l23: forall k int :: 0 <= k && k < len(sessions) ==> sessEntryOK(sessions[k], i)
+//@     invariant sess-l24: forall x robust.Id :: x in i.sessions ==> (exists k int :: 0 <= k && k < len(sessions) && snapId(sessions[k]) == x)
+//@     invariant sess-l25: forall a int, b int {sessions[a], sessions[b]} :: 0 <= a && a < b && b < len(sessions) ==> snapId(sessions[a]) != snapId(sessions[b])
 //@   loop for mode < 'z' #1
-//@     invariant forall k int :: 0 <= k && k < len(sessions) ==> sessEntryOK(sessions[k], i)
-//@     invariant forall x robust.Id :: x in i.sessions ==> (exists k int :: 0 <= k && k < len(sessions) && snapId(sessions[k]) == x)
-//@     invariant forall a int, b int {sessions[a], sessions[b]} :: 0 <= a && a < b && b < len(sessions) ==> snapId(sessions[a]) != snapId(sessions[b])
+//@     invariant sess-l26: forall k int :: 0 <= k && k < len(sessions) ==> sessEntryOK(sessions[k], i)
+//@     invariant sess-l27: forall x robust.Id :: x in i.sessions ==> (exists k int :: 0 <= k && k < len(sessions) && snapId(sessions[k]) == x)
+//@     invariant sess-l28: forall a int, b int {sessions[a], sessions[b]} :: 0 <= a && a < b && b < len(sessions) ==> snapId(sessions[a]) != snapId(sessions[b])
 //@   loop range channel.bans
-//@     invariant forall k int :: 0 <= k && k < len(sessions) ==> sessEntryOK(sessions[k], i)
-//@     invariant forall x robust.Id :: x in i.sessions ==> (exists k int :: 0 <= k && k < len(sessions) && snapId(sessions[k]) == x)
-//@     invariant forall a int, b int {sessions[a], sessions[b]} :: 0 <= a && a < b && b < len(sessions) ==> snapId(sessions[a]) != snapId(sessions[b])
+//@     invariant sess-l29: forall k int :: 0 <= k && k < len(sessions) ==> sessEntryOK(sessions[k], i)
+//@     invariant sess-l30: forall x robust.Id :: x in i.sessions ==> (exists k int :: 0 <= k && k < len(sessions) && snapId(sessions[k]) == x)
+//@     invariant sess-l31: forall a int, b int {sessions[a], sessions[b]} :: 0 <= a && a < b && b < len(sessions) ==> snapId(sessions[a]) != snapId(sessions[b])
 //@   loop range i.svsholds
-//@     invariant forall k int :: 0 <= k && k < len(sessions) ==> sessEntryOK(sessions[k], i)
-//@     invariant forall x robust.Id :: x in i.sessions ==> (exists k int :: 0 <= k && k < len(sessions) && snapId(sessions[k]) == x)
-//@     invariant forall a int, b int {sessions[a], sessions[b]} :: 0 <= a && a < b && b < len(sessions) ==> snapId(sessions[a]) != snapId(sessions[b])
+//@     invariant sess-l32: forall k int :: 0 <= k && k < len(sessions) ==> sessEntryOK(sessions[k], i)
+//@     invariant sess-l33: forall x robust.Id :: x in i.sessions ==> (exists k int :: 0 <= k && k < len(sessions) && snapId(sessions[k]) == x)
+//@     invariant sess-l34: forall a int, b int {sessions[a], sessions[b]} :: 0 <= a && a < b && b < len(sessions) ==> snapId(sessions[a]) != snapId(sessions[b])
 //@   loop range i.Config.IRC.Operators
-//@     invariant forall k int :: 0 <= k && k < len(sessions) ==> sessEntryOK(sessions[k], i)
-//@     invariant forall x robust.Id :: x in i.sessions ==> (exists k int :: 0 <= k && k < len(sessions) && snapId(sessions[k]) == x)
-//@     invariant forall a int, b int {sessions[a], sessions[b]} :: 0 <= a && a < b && b < len(sessions) ==> snapId(sessions[a]) != snapId(sessions[b])
+//@     invariant sess-l35: forall k int :: 0 <= k && k < len(sessions) ==> sessEntryOK(sessions[k], i)
+//@     invariant sess-l36: forall x robust.Id :: x in i.sessions ==> (exists k int :: 0 <= k && k < len(sessions) && snapId(sessions[k]) == x)
+//@     invariant sess-l37: forall a int, b int {sessions[a], sessions[b]} :: 0 <= a && a < b && b < len(sessions) ==> snapId(sessions[a]) != snapId(sessions[b])
 //@   loop range i.Config.IRC.Services
-//@     invariant forall k int :: 0 <= k && k < len(sessions) ==> sessEntryOK(sessions[k], i)
-//@     invariant forall x robust.Id :: x in i.sessions ==> (exists k int :: 0 <= k && k < len(sessions) && snapId(sessions[k]) == x)
-//@     invariant forall a int, b int {sessions[a], sessions[b]} :: 0 <= a && a < b && b < len(sessions) ==> snapId(sessions[a]) != snapId(sessions[b])
+//@     invariant sess-l38: forall k int :: 0 <= k && k < len(sessions) ==> sessEntryOK(sessions[k], i)
+//@     invariant sess-l39: forall x robust.Id :: x in i.sessions ==> (exists k int :: 0 <= k && k < len(sessions) && snapId(sessions[k]) == x)
+//@     invariant sess-l40: forall a int, b int {sessions[a], sessions[b]} :: 0 <= a && a < b && b < len(sessions) ==> snapId(sessions[a]) != snapId(sessions[b])
 //@   loop range i.Config.IRC.Operators
-//@     invariant 0 - 1 <= rangeindex && rangeindex < len(i.Config.IRC.Operators) && len(operators) == rangeindex + 1 && (forall k int :: 0 <= k && k < len(operators) ==> operators[k] != nil && allocated(operators[k]) && operators[k].Name == i.Config.IRC.Operators[k].Name && operators[k].Password == i.Config.IRC.Operators[k].Password)
+//@     invariant config-l41: 0 - 1 <= rangeindex && rangeindex < len(i.Config.IRC.Operators) && len(operators) == rangeindex + 1 && (forall k int :: 0 <= k && k < len(operators) ==> operators[k] != nil && allocated(operators[k]) && operators[k].Name == i.Config.IRC.Operators[k].Name && operators[k].Password == i.Config.IRC.Operators[k].Password)
 //@   loop range i.Config.IRC.Services
-//@     invariant len(operators) == len(i.Config.IRC.Operators) && (forall k int :: 0 <= k && k < len(operators) ==> operators[k] != nil && allocated(operators[k]) && operators[k].Name == i.Config.IRC.Operators[k].Name && operators[k].Password == i.Config.IRC.Operators[k].Password)
-//@     invariant 0 - 1 <= rangeindex && rangeindex < len(i.Config.IRC.Services) && len(services) == rangeindex + 1 && (forall k int :: 0 <= k && k < len(services) ==> services[k] != nil && allocated(services[k]) && services[k].Password == i.Config.IRC.Services[k].Password)
-//@   assert@call proto.Marshal#0 : same: sameslice(snapshot.Sessions, sessions)
-//@   assert@call proto.Marshal#0 : sessions-complete: forall x robust.Id :: x in i.sessions ==> (exists k int :: 0 <= k && k < len(sessions) && snapId(sessions[k]) == x)
-//@   assert@call proto.Marshal#0 : sessions: wfSnapSessions(addrof(snapshot))
-//@   assert@call proto.Marshal#0 : sessions-repr: forall k int :: 0 <= k && k < len(sessions) ==> sessEntryOK(sessions[k], i)
+//@     invariant config-l42: len(operators) == len(i.Config.IRC.Operators) && (forall k int :: 0 <= k && k < len(operators) ==> operators[k] != nil && allocated(operators[k]) && operators[k].Name == i.Config.IRC.Operators[k].Name && operators[k].Password == i.Config.IRC.Operators[k].Password)
+//@     invariant config-l43: 0 - 1 <= rangeindex && rangeindex < len(i.Config.IRC.Services) && len(services) == rangeindex + 1 && (forall k int :: 0 <= k && k < len(services) ==> services[k] != nil && allocated(services[k]) && services[k].Password == i.Config.IRC.Services[k].Password)
+//@   assert@call proto.Marshal#0 : sess-same: sameslice(snapshot.Sessions, sessions)
+//@   assert@call proto.Marshal#0 : sess-sessions-complete: forall x robust.Id :: x in i.sessions ==> (exists k int :: 0 <= k && k < len(sessions) && snapId(sessions[k]) == x)
+//@   assert@call proto.Marshal#0 : sess-sessions: wfSnapSessions(addrof(snapshot))
+//@   assert@call proto.Marshal#0 : sess-sessions-repr: forall k int :: 0 <= k && k < len(sessions) ==> sessEntryOK(sessions[k], i)
 //@   assert@call proto.Marshal#0 : config: snapshot.Config == config && cfgRepr(config, addrof(i.Config)) && cfgTextOK(config)
-//@   assert@call proto.Marshal#0 : top: snapshot.LastProcessed != nil && snapshot.LastProcessed.Id == i.lastProcessed.Id && snapshot.LastProcessed.Reply == i.lastProcessed.Reply && snapshot.LastIncludedIndex == lastIncludedIndex
-//@   assert@call proto.Marshal#0 : top-shape: wfSnapTop(addrof(snapshot))
+//@   assert@call proto.Marshal#0 : config-top: snapshot.LastProcessed != nil && snapshot.LastProcessed.Id == i.lastProcessed.Id && snapshot.LastProcessed.Reply == i.lastProcessed.Reply && snapshot.LastIncludedIndex == lastIncludedIndex
+//@   assert@call proto.Marshal#0 : config-top-shape: wfSnapTop(addrof(snapshot))
 
 // Unmarshal into a fresh server. The three error returns for unparsable
 // durations and key are unreachable for a snapshot written by Marshal.
@@ -1072,3 +1072,20 @@ package ircserver
 //@   assert@return snapshot.LastIncludedIndex, nil#0 : services: forall x robust.Id :: x in i.sessions && i.sessions[x].Server ==> (exists j int :: 0 <= j && j < len(i.serverSessions) && i.serverSessions[j] == x.Id)
 //@   assert@return snapshot.LastIncludedIndex, nil#0 : config: cfgRepr(snapshot.Config, addrof(i.Config))
 //@   assert@return snapshot.LastIncludedIndex, nil#0 : config-top: i.lastProcessed.Id == snapshot.LastProcessed.Id && i.lastProcessed.Reply == snapshot.LastProcessed.Reply && callarg0 == snapshot.LastIncludedIndex && callarg1 == nil
+
+// The relations determine the state: two sessions (configurations) that
+// stand in the relation to the same wire form agree on every related field.
+// Together with "Marshal establishes the relation" and "Unmarshal
+// re-establishes it on the decoded copy" this is the round trip.
+//@ func lemma_sessrepr_functional
+//@   opt params = p *pb.Snapshot_Session, a *Session, b *Session
+//@   requires sessRepr(p, a) && sessRepr(p, b) && modesRepr(p, a) && modesRepr(p, b)
+//@   ensures a.Id == b.Id && a.auth == b.auth && a.loggedIn == b.loggedIn && a.Nick == b.Nick && a.Username == b.Username && a.Realname == b.Realname && a.LastActivity == b.LastActivity && a.LastNonPing == b.LastNonPing && a.LastSolvedCaptcha == b.LastSolvedCaptcha && a.Operator == b.Operator && a.AwayMsg == b.AwayMsg && a.Created == b.Created && a.throttlingExponent == b.throttlingExponent && a.svid == b.svid && a.Pass == b.Pass && a.Server == b.Server && a.lastClientMessageId == b.lastClientMessageId && a.ircPrefix.Name == b.ircPrefix.Name && a.ircPrefix.User == b.ircPrefix.User && a.ircPrefix.Host == b.ircPrefix.Host && a.RemoteAddr == b.RemoteAddr
+//@   ensures modes: forall m int :: 0 <= m && m < 122 ==> (a.modes[m] <==> b.modes[m])
+//@ func lemma_cfgrepr_functional
+//@   opt params = p *pb.Snapshot_Config, a *config.Network, b *config.Network
+//@   requires cfgRepr(p, a) && cfgRepr(p, b) && p.Banned != nil
+//@   ensures a.Revision == b.Revision && a.SessionExpiration == b.SessionExpiration && a.PostMessageCooloff == b.PostMessageCooloff && a.TrustedBridges == b.TrustedBridges && a.CaptchaURL == b.CaptchaURL && len(a.CaptchaHMACSecret) == len(b.CaptchaHMACSecret) && a.CaptchaRequiredForLogin == b.CaptchaRequiredForLogin && a.MaxSessions == b.MaxSessions && a.MaxChannels == b.MaxChannels && a.Banned == b.Banned && len(a.IRC.Operators) == len(b.IRC.Operators) && len(a.IRC.Services) == len(b.IRC.Services)
+//@   ensures secret: forall k int :: 0 <= k && k < len(a.CaptchaHMACSecret) ==> a.CaptchaHMACSecret[k] == b.CaptchaHMACSecret[k]
+//@   ensures operators: forall k int :: 0 <= k && k < len(a.IRC.Operators) ==> a.IRC.Operators[k].Name == b.IRC.Operators[k].Name && a.IRC.Operators[k].Password == b.IRC.Operators[k].Password
+//@   ensures services: forall k int :: 0 <= k && k < len(a.IRC.Services) ==> a.IRC.Services[k].Password == b.IRC.Services[k].Password
